@@ -24,6 +24,27 @@ pub struct Case {
     pub tasks: usize,
     #[serde(default)]
     pub cfg: Option<SimCfg>,
+    /// how the Constraints object is built: 0 = Constraints::new, 1 = Constraints::from_degrees,
+    /// 2 = built with other limits and then update_range(from, to)
+    #[serde(default)]
+    pub ctor: u8,
+}
+
+/// Build the constraints the way the case says. The oracle then reads the limits back from the
+/// object's public `from` / `to` fields (from_degrees converts degrees -> radians itself).
+pub fn build(case: &Case) -> Constraints {
+    match case.ctor {
+        1 => {
+            let r: [std::ops::RangeInclusive<f64>; 6] = std::array::from_fn(|j| case.from[j].to_degrees()..=case.to[j].to_degrees());
+            Constraints::from_degrees(r, 0.0)
+        }
+        2 => {
+            let mut c = Constraints::new([-0.5; 6], [2.5, -1.0, 0.7, 3.0, -2.0, 0.1], 1.0);
+            c.update_range(case.from, case.to);
+            c
+        }
+        _ => Constraints::new(case.from, case.to, 0.0),
+    }
 }
 
 #[derive(Clone, Debug)]
@@ -125,7 +146,12 @@ fn judge_vector(case: &Case, c: &Constraints, row: usize, v: &[f64; 6], fails: &
 }
 
 pub fn judge(case: &Case) -> Vec<Fail> {
-    let c = Constraints::new(case.from, case.to, 0.0);
+    let c = build(case);
+    // the limits the object itself holds are the ones its samples must satisfy
+    let mut eff = case.clone();
+    eff.from = c.from;
+    eff.to = c.to;
+    let case = &eff;
     let mut fails = Vec::new();
     if case.tasks > 1 {
         // concurrent samplers on simulated tasks sharing the outcome stream
@@ -393,16 +419,19 @@ pub fn run(tier_name: &str, seed: u64) -> i32 {
             for j in 0..6 {
                 tally.bump(&format!("limits_{}", class_of(from[j], to[j])), 1);
             }
-            let c = Constraints::new(from, to, 0.0);
+            let ctor = (w.below(5) as u8).min(2); // 0,1,2,2,2 -> weights: new 20%, from_degrees 20%, update_range 60%? no: see below
+            let ctor = match ctor { 0 => 0u8, 1 => 1, _ => if w.chance(0.3) { 2 } else { 0 } };
+            tally.bump(&format!("constraints_built_by_{}", ["new", "from_degrees", "update_range"][ctor as usize]), 1);
+            let c = build(&Case { from, to, draws: vec![], tasks: 1, cfg: None, ctor });
             let rows = adversarial_rows(&c, &mut w, t.uniform, t.grid, &mut tally);
             let concurrent = t.concurrent_every > 0 && run % t.concurrent_every == 0;
             let case = if concurrent {
                 let mut knobs = Rng::derive(seed, shard as u64, run as u64, "c18.knobs");
                 let cfg = SimCfg::swarm(&mut knobs, simctx::mix(&[seed, shard as u64, run as u64, 18]), 0, 100_000);
                 tally.bump("concurrent_sampler_runs", 1);
-                Case { from, to, draws: rows.iter().take(24).cloned().collect(), tasks: knobs.range_usize(2, 4), cfg: Some(cfg) }
+                Case { from, to, draws: rows.iter().take(24).cloned().collect(), tasks: knobs.range_usize(2, 4), cfg: Some(cfg), ctor }
             } else {
-                Case { from, to, draws: rows, tasks: 1, cfg: None }
+                Case { from, to, draws: rows, tasks: 1, cfg: None, ctor }
             };
             tally.evaluations += case.draws.len() as u64;
             let any_wrap = (0..6).any(|j| from[j] > to[j]);
